@@ -53,6 +53,9 @@ func (e *Exec) builtin(fr *frame, st *State, b *ssa.Builtin, c *ssa.CallCommon, 
 		// delete on a nil map is a no-op
 		e.writeHeapCond(st, smt.Neq(m, NilAddr), hk, hs, m, smt.Store(has, k, smt.False), pos)
 		return smt.TupleOf()
+	case "SliceData":
+		// unsafe.SliceData: the address of the first element of the backing array window
+		return Elm(SArr(args[0]), SOff(args[0]))
 	case "print", "println":
 		return smt.TupleOf()
 	case "min", "max":
